@@ -19,21 +19,22 @@ from common import CACHE
 
 # every kind of binding the runtime takes from the resolver's facts, with a same-named alternative live on the call
 # path: a by-name fallback (seed C18-c1: call bindings left unsorted when the analyses are skipped, so the binary
-# search misses user calls nested in another call's arguments) prints 11 / 110 / 1 / 70 instead
+# search misses user calls nested in another call's arguments) prints 111 or 11 instead of 1
 BIND = ("do tag() start return 1 end\n"
-        "do id(v) start return v end\n"
-        "do probe() start return id(tag()) end\n"
+        "do wrap(v) start return v end\n"
+        "do probe() start return wrap(tag()) end\n"
         "start\n"
         "    do tag() start return 11 end\n"
+        "    do wrap(v) start return v add 100 end\n"
         "    shout(probe())\n"
-        "    shout(id(tag()) times 10)\n"
+        "    shout(wrap(tag()) times 10)\n"
         "end\n"
         "shout(probe())\n"
         "make v get 7\n"
         "do show() start return v end\n"
         "do run() start make v get 70 return show() end\n"
         "shout(run())\n")
-BIND_OUT = ["1", "110", "1", "7"]
+BIND_OUT = ["1", "1110", "1", "7"]
 
 FILLERS = {
     # name: (prologue, statement, epilogue, expected last line(s) as a function of n, statements of prologue + epilogue)
@@ -42,7 +43,7 @@ FILLERS = {
     "expr": ("make x get 0\nmake y get 2\n", "x get (x add y times 2 minus 3) mod 7 add 1\n", "shout(x pass 0)\n", lambda n: "true", 3),
     "calls": ("make x get 0\ndo inc(a) start return a add 1 end\n", "x get inc(x)\n", "shout(x)\n", lambda n: str(n), 4),
     "strings": ("make s get \"\"\n", "s get \"ab\".to_uppercase()\n", "shout(s)\n", lambda n: "AB", 2),
-    "bind": (BIND + "make x get 0\n", "x get x add 1\n", "shout(x)\n", lambda n: BIND_OUT + [str(n)], 21),
+    "bind": (BIND + "make x get 0\n", "x get x add 1\n", "shout(x)\n", lambda n: BIND_OUT + [str(n)], 23),
 }
 
 
